@@ -293,6 +293,7 @@ let judge _id (c : cursor) (r : cursor) : bool * string =
     expect r "X"; let dx = next_list r next in
     expect r "D"; let dd = next_list r next in
     expect r "RT"; let rt = next_load r dd in
+    expect r "RTS"; let rts = next_load r dd in      (* same text, trailing whitespace stripped *)
     let ntok = List.length toks in
     let truncs = List.init ntok (fun n -> (Printf.sprintf "trunc@%d" n, firstn n toks)) in
     let corrs = if ntok = 0 then [] else
@@ -327,6 +328,11 @@ let judge _id (c : cursor) (r : cursor) : bool * string =
         oracle_fail "sparse_table_counts_exact" "read(SparseTable2D)" "a count above 2^53 was read through a double and came back rounded";
       oracle_fail ops.clause ops.site_r (if rt.st <> St_ok then "reading back the written text failed" else "object read back differs from the one written")
     end;
+    (* end of input right after the last token is still a successful, complete read *)
+    if rts.st <> St_ok || rts.dump <> dx then
+      oracle_fail ops.clause ops.site_r
+        (if rts.st <> St_ok then "reading back the written text without its trailing whitespace failed"
+         else "object read back from the text without trailing whitespace differs from the one written");
     (* ---- C ---- *)
     let cdx = List.map canon_of_impl dx and cdd = List.map canon_of_impl dd in
     if not (dumps_agree ~approx:false cdx ops.xdump) then disagree "dump_X" "harness" ("impl " ^ show_dump cdx ^ " model " ^ show_dump ops.xdump);
@@ -342,6 +348,7 @@ let judge _id (c : cursor) (r : cursor) : bool * string =
         disagree ("read_" ^ kind) ops.site_r (name ^ ": impl " ^ show_dump idump ^ " model " ^ show_dump mdump)
       end in
     cmp "full" toks rt false;
+    cmp "full-stripped" toks rts false;
     let accepted = ref 0 in
     List.iter (fun (_, name, ts, il) -> if il.st = St_ok then incr accepted; cmp name ts il ops.approx) faults;
     (ntok > 2, kind ^ (if !accepted > 0 then "+acc" else ""))
